@@ -57,7 +57,8 @@ def r03a(ctx):
             if pl is None:
                 continue
             ty = ab.flow.lty(pl['l'])
-            if ty.startswith('&mut ') and flow.show(ab.arg(cb, 0)).endswith('self.chunk_hashes'):
+            if ty.startswith('&mut ') and flow.show(ab.arg(cb, 0)).endswith('self.chunk_hashes') and sg(t.get('fn', '')).split('::')[-1] not in ('reserve', 'reserve_exact', 'shrink_to_fit', 'shrink_to'):
+                # (capacity management does not change the contents)
                 writers.setdefault(p, []).append((cb, sg(t.get('fn', '')).split('::')[-1]))
         if ab.stores_to_field('chunk_hashes'):
             writers.setdefault(p, []).append((-1, 'store'))
